@@ -17,7 +17,7 @@ from vlib.core import Stage, fail
 ID = "C17"
 MANIFEST = {
     "category": "exploration",
-    "text": "Generated-input search against an oracle written from the statement: value pools of 1-5 entries (valid AHB expressions of all documented forms, incl. packages) x entered input in {absent, empty, an offered qualifier, a pool qualifier that is not offered, a foreign value} x parent status in {required, optional, forbidden} x content evaluation results incl. UNKNOWN, through validate_data_element_valuepool directly and through validate_segment; a quarter of the cases inject the shipped ContentEvaluationResult based evaluators once and validate the same pool twice under two different content evaluation results that define its packages differently. possible_values must list exactly the qualifiers whose own expression is fulfilled, in pool order, with their meanings; nothing offered or forbidden segment => IS_FORBIDDEN with nothing offered; entered value offered => ..._AND_FILLED and not flagged; entered non-empty value not offered => flagged (format_validation_fulfilled False) and ..._AND_EMPTY; no input => ..._AND_EMPTY, not flagged. Meaning texts of pool entries are generated as well (blank, '0', equal to the qualifier). Stage large-pools (enumerated): pools of 101-150 (thorough: 64-400) entries of which every 3rd / 7th is admissible, through both entry points.",
+    "text": "Generated-input search against an oracle written from the statement: value pools of 1-5 entries (valid AHB expressions of all documented forms, incl. packages) x entered input in {absent, empty, an offered qualifier, a pool qualifier that is not offered, a foreign value} x parent status in {required, optional, forbidden} x content evaluation results incl. UNKNOWN, through validate_data_element_valuepool directly and through validate_segment; a quarter of the cases inject the shipped ContentEvaluationResult based evaluators once and validate the same pool twice under two different content evaluation results that define its packages differently. possible_values must list exactly the qualifiers whose own expression is fulfilled, in pool order, with their meanings; nothing offered or forbidden segment => IS_FORBIDDEN with nothing offered; entered value offered => ..._AND_FILLED and not flagged; entered non-empty value not offered => flagged (format_validation_fulfilled False) and ..._AND_EMPTY; no input => ..._AND_EMPTY, not flagged. Meaning texts of pool entries are generated as well (blank, '0', equal to the qualifier). Stage large-pools (enumerated): pools of 101-150 (thorough: 64-400) entries of which every 3rd / 7th is admissible, through both entry points. A fifth of the pools contain an entry with a well-formed but invalid expression, which is always selectable.",
     "note": "Trusted: the reference evaluation of entry expressions (vlib/ref.py) and the oracle in this module. Whether a non-forbidden pool is reported REQUIRED or OPTIONAL is not constrained by the statement and not checked. Process configuration by shard (vlib/sut.py; recorded in replay files): plain / parse caches preheated beyond their size / warnings attributed to ahbicht raised as errors / logging fully enabled with every record rendered; one event loop per process or a new one per call; five process time zones; the hash seed is the shard number; namesakes of ahbicht's marshmallow schema classes are registered.",
     "technique": "property-based testing against a reference predicate (offered set computed by the reference evaluator)",
 }
@@ -172,6 +172,8 @@ def classify(case, info):
         labels.append("input=foreign")
     if entered in offered and any(e["q"] == entered and vtree.meaning(e).strip() == "" for e in element["pool"]):
         labels.append("entered-value-has-blank-meaning")
+    if any(e["expr"].get("fault") for e in element["pool"]):
+        labels.append("with-invalid-entry")
     if len({e["q"] for e in element["pool"]}) != len(element["pool"]):
         labels.append("duplicate-qualifier")
     proper = 0 < len(offered) < len({e["q"] for e in element["pool"]})
@@ -222,6 +224,11 @@ def strategy(tier):  # pylint:disable=unused-argument
             qualifiers.insert(draw(st.integers(0, len(qualifiers))), draw(st.sampled_from(qualifiers)))
         texts = {q: vtree.with_meaning(draw, {"q": q}) for q in set(qualifiers)}
         pool = [{**texts[q], "expr": draw(vtree.node_expression(table_asts))} for q in qualifiers]
+        if len(pool) >= 2 and draw(st.sampled_from(range(5))) == 0:
+            # an entry with a well-formed but invalid expression is selectable whatever the entries around it are (C16)
+            position = draw(st.sampled_from(range(len(pool))))
+            invalid = draw(st.sampled_from(["X [1] O [500]", "Muss [499] X [901]", "X [500] O [901]", "M [2000] U ([1] O [900])"]))
+            pool[position] = {**pool[position], "expr": {"s": invalid, "parts": [], "fault": True}}
         cer = draw(vtree.g_cer(weights=draw(st.sampled_from(["FUK", "FFU", "UUF", "U", "FUUK"]))))
         kind = draw(st.sampled_from(["none", "empty", "pool", "pool", "pool", "foreign"]))
         entered = {"none": None, "empty": "", "foreign": draw(st.sampled_from(["Q", "zz", "a", " A"]))}.get(kind)
@@ -245,7 +252,7 @@ def sample(case):
 STAGES = [
     Stage(name="pools", kind="hyp", check=check, classify=classify, strategy=strategy,
           budget={"quick": 200, "thorough": 3000},
-          floors={"proper-subset-offered": 0.1, "nothing-offered": 0.015, "input=offered": 0.1,
+          floors={"proper-subset-offered": 0.1, "nothing-offered": 0.005, "input=offered": 0.1,
                   "input=in-pool-not-offered": 0.035, "input=foreign": 0.05, "offer-changes-between-validations": 0.03,
                   "duplicate-qualifier": 0.05},
           sample=sample),
